@@ -55,6 +55,46 @@ package record
 //@     invariant forall i int :: end < i && i < len(times) ==> times[i] > endTime
 //@     decreases end - start + 1
 
+// The descending twins (column engine, log queries). The column is non-increasing from startPos and MAY hold equal
+// times; the result is the boundary of the whole run of equal times, not just some member of it (the second loop).
+//@ spec func desc_from(t []int64, from int) bool = forall i int, j int :: from <= i && i < j && j < len(t) ==> t[i] >= t[j]
+
+// First index (from startPos) whose time is <= startTime in a non-increasing column.
+//@ func GetTimeRangeStartIndexDescend
+//@   index_fn
+//@   requires 0 <= startPos && startPos <= len(times) && len(times) < 4611686018427387904 && desc_from(times, startPos)
+//@   ensures [in_range] startPos <= result && result <= len(times)
+//@   ensures [everything_before_is_later] forall i int :: startPos <= i && i < result ==> times[i] > startTime
+//@   ensures [everything_from_there_is_not_later] forall i int :: result <= i && i < len(times) ==> times[i] <= startTime
+//@   assigns nothing
+//@   loop 1
+//@     invariant startPos <= start && start <= end + 1 && end < len(times)
+//@     invariant forall i int :: startPos <= i && i < start ==> times[i] > startTime
+//@     invariant forall i int :: end < i && i < len(times) ==> times[i] < startTime
+//@     decreases end - start + 1
+//@   loop 2
+//@     invariant startPos <= start && start <= len(times)
+//@     invariant forall i int :: start <= i && i < len(times) ==> times[i] <= startTime
+//@     decreases start
+
+// Last index (from startPos) whose time is >= endTime in a non-increasing column (startPos-1 if none).
+//@ func GetTimeRangeEndIndexDescend
+//@   index_fn
+//@   requires 0 <= startPos && startPos <= len(times) && len(times) < 4611686018427387904 && desc_from(times, startPos)
+//@   ensures [in_range] startPos - 1 <= result && result < len(times)
+//@   ensures [everything_up_to_there_is_not_earlier] forall i int :: startPos <= i && i <= result ==> times[i] >= endTime
+//@   ensures [everything_after_is_earlier] forall i int :: result < i && i < len(times) ==> times[i] < endTime
+//@   assigns nothing
+//@   loop 1
+//@     invariant startPos <= start && start <= end + 1 && end < len(times) && endPos == len(times) - 1
+//@     invariant forall i int :: startPos <= i && i < start ==> times[i] > endTime
+//@     invariant forall i int :: end < i && i < len(times) ==> times[i] < endTime
+//@     decreases end - start + 1
+//@   loop 2
+//@     invariant startPos - 1 <= end && end <= endPos && endPos == len(times) - 1
+//@     invariant forall i int :: startPos <= i && i <= end ==> times[i] >= endTime
+//@     decreases endPos - end
+
 //@ prop C02
 
 // Two-way merge in time order with new-over-old precedence:
